@@ -1,4 +1,81 @@
-(** Harness glue for C13 (stub: no families yet). *)
-From Coq Require Import List String.
-From KV Require Import Glue.Val.
-Definition c13_run (fam : string) (args : list val) : option string := None.
+(** Harness glue for C13/C14: Parser operation sequences. *)
+From Coq Require Import List ZArith Bool String.
+From KV Require Import Base.Prelude Model.Parser Glue.Val.
+Import ListNotations.
+Local Open Scope string_scope.
+
+Definition op_of (v : val) : option pop :=
+  match as_list v with
+  | VA name :: rest =>
+      let a := match rest with x :: _ => x | [] => VZ 0%Z end in
+      if String.eqb name "skip" then Some (OSkip (as_Z a))
+      else if String.eqb name "skip_back" then Some (OSkipBack (as_Z a))
+      else if String.eqb name "trim" then Some OTrim
+      else if String.eqb name "trim_start" then Some OTrimStart
+      else if String.eqb name "trim_end" then Some OTrimEnd
+      else if String.eqb name "trim_matches" then Some (OTrimMatches (as_bytes a))
+      else if String.eqb name "trim_start_matches" then Some (OTrimStartMatches (as_bytes a))
+      else if String.eqb name "trim_end_matches" then Some (OTrimEndMatches (as_bytes a))
+      else if String.eqb name "strip_prefix" then Some (OStripPrefix (as_bytes a))
+      else if String.eqb name "strip_suffix" then Some (OStripSuffix (as_bytes a))
+      else if String.eqb name "find_skip" then Some (OFindSkip (as_bytes a))
+      else if String.eqb name "rfind_skip" then Some (ORFindSkip (as_bytes a))
+      else if String.eqb name "split" then Some (OSplit (as_bytes a))
+      else if String.eqb name "rsplit" then Some (ORSplit (as_bytes a))
+      else if String.eqb name "split_terminator" then Some (OSplitTerminator (as_bytes a))
+      else if String.eqb name "rsplit_terminator" then Some (ORSplitTerminator (as_bytes a))
+      else if String.eqb name "split_keep" then Some (OSplitKeep (as_bytes a))
+      else None
+  | _ => None
+  end.
+
+Fixpoint ops_of (l : list val) : option (list pop) :=
+  match l with
+  | [] => Some []
+  | v :: r => match op_of v, ops_of r with Some o, Some os => Some (o :: os) | _, _ => None end
+  end.
+
+Definition show_dir (d : pdir) : string := match d with FromStart => "S" | FromEnd => "E" | FromBoth => "B" end.
+Definition show_kind (k : ekind) : string :=
+  match k with
+  | EParseInteger => "ParseInteger" | EParseBool => "ParseBool" | EFind => "Find" | EStrip => "Strip"
+  | ESplitExhausted => "SplitExhausted" | EDelimiterNotFound => "DelimiterNotFound" | EOther => "Other"
+  end.
+Definition show_value (v : pvalue) : string :=
+  match v with
+  | VNone => "-"
+  | VPiece s => show_bytes s
+  | VInt z => show_Z z
+  | VBool b => show_bool b
+  end.
+
+(** does the parser's remainder sit at [start-base .. end-base] of the original? *)
+Definition inv_holds (orig : list Z) (base : Z) (p : parser) : bool :=
+  let off := p_start p - base in
+  (0 <=? off)%Z && (off + zlen (p_str p) <=? zlen orig)%Z &&
+  list_eqb Z.eqb (firstn (length (p_str p)) (skipn (Z.to_nat off) orig)) (p_str p).
+
+Definition show_res (orig : list Z) (base : Z) (r : pres) : string :=
+  match r with
+  | POk v p =>
+      "ok(" ++ show_Z (p_start p) ++ "," ++ show_Z (end_offset p) ++ "," ++ show_bytes (p_str p) ++ ","
+            ++ show_dir (p_dir p) ++ "," ++ show_value v ++ "," ++ show_bool (inv_holds orig base p) ++ ")"
+  | PErr e => "err(" ++ show_Z (err_offset e) ++ "," ++ show_dir (e_dir e) ++ "," ++ show_kind (e_kind e) ++ ")"
+  | PPanic => "PANIC"
+  end.
+
+Definition c13_run (fam : string) (args : list val) : option string :=
+  match args with
+  | [orig; base; ops] =>
+      if String.eqb fam "c13.ops" then
+        match ops_of (as_list ops) with
+        | Some os =>
+            let o := as_bytes orig in
+            let b := as_Z base in
+            let p0 := if (b =? 0)%Z then parser_new o else parser_with_start_offset o b in
+            Some (show_list (show_res o b) (run_ops p0 os))
+        | None => Some "!ops"
+        end
+      else None
+  | _ => None
+  end.
